@@ -34,7 +34,7 @@ ASSUMPTIONS = [
     "failpoints are placed only in callee frames below as_dict/as_obj: no real exception can arise between the plain assignments at the top of these two functions",
     "the slots are read through their name-mangled class attributes",
 ]
-MUST_SEE = ["indented_json_with_options", "option_spelled_false", "raised_with_options", "failpoints_fired", "failpoint_nested", "default_after_fault", "bomb_positions", "corrupt_payloads", "option_subsets", "mappings_walked", "explorer_children_checked", "index_sources_checked", "deser_with_options", "repo_tests_slot_checks", "shared_options_object"]
+MUST_SEE = ["faults_outside_the_exception_tree", "indented_json_with_options", "option_spelled_false", "raised_with_options", "failpoints_fired", "failpoint_nested", "default_after_fault", "bomb_positions", "corrupt_payloads", "option_subsets", "mappings_walked", "explorer_children_checked", "index_sources_checked", "deser_with_options", "repo_tests_slot_checks", "shared_options_object"]
 CONFIG = {
     "quick": {"shards": 16, "trees": 16, "subsets": 14, "failpoint_trees": 1, "watchdog_s": 600},
     "thorough": {"shards": 32, "trees": 40, "subsets": 48, "failpoint_trees": 4, "watchdog_s": 3400},
@@ -43,10 +43,18 @@ CONFIG = {
 PRELUDE_BOMB = """
 from mashumaro.types import SerializableType as _ST
 
+class {P}Abort(BaseException):
+    # an application's own way of unwinding (outside the Exception tree, like KeyboardInterrupt / SystemExit)
+    pass
+
 class {P}Bomb(_ST):
     def __init__(self, armed=False):
         self.armed = armed
     def _serialize(self):
+        if self.armed == "abort":
+            raise {P}Abort("bomb: the caller unwinds through the serializer")
+        if self.armed == "interrupt":
+            raise KeyboardInterrupt()
         if self.armed:
             raise RuntimeError("bomb: serialization of this property fails")
         return {{"bomb": False}}
@@ -333,13 +341,16 @@ def run_shard(ctx):
             if not any(U.is_sub(f"{P}Expr", t) or t == f"{P}Expr" for t in f.types):
                 continue
             holder_marker = S("__holder__", {}, {"child": q.spec})
+            bomb_kind = rng.choice([True, True, "abort", "interrupt"])  # what the failing property raises
+            if bomb_kind is not True:
+                ctx.count("faults_outside_the_exception_tree")
             # build manually: construct subtree nodes, then Holder, then ancestors
             memo = {}
 
             def build2(sp):
                 if sp is holder_marker:
                     inner = build2(sp.kids["child"])
-                    return Holder(b=Bomb(True), child=inner if isinstance(inner, U.cls[f"{P}Expr"]) else None)
+                    return Holder(b=Bomb(bomb_kind), child=inner if isinstance(inner, U.cls[f"{P}Expr"]) else None)
                 if id(sp) in memo:
                     return memo[id(sp)]
                 kw = {}
@@ -377,7 +388,9 @@ def run_shard(ctx):
             raised = False
             try:
                 do_ser(broot, how, opts, md if how in ("as_dict", "to_yaml") else None)
-            except Exception:  # noqa: BLE001
+            except BaseException as e:  # noqa: BLE001 - the injected faults include KeyboardInterrupt and a BaseException subclass
+                if isinstance(e, (SystemExit, GeneratorExit)):
+                    raise
                 raised = True
             if not raised:
                 bad("fault-not-raised", "the raising property did not make the call fail (harness)", **call)
